@@ -13,6 +13,8 @@ of one simulated run.  The wrappers
 * never read a wall clock or draw a random number.
 """
 import math
+import signal
+import threading
 
 
 class HarnessAbort(BaseException):
@@ -60,9 +62,12 @@ class _LoopModel:
 class Seam:
     SAME_TIME_CAP = 20000
     TOTAL_CAP = 200000
+    CPU_CAP = 20.0        # CPU seconds one run may burn (normal runs need milliseconds)
 
     def __init__(self, plan=(), inject=None, same_time_cap=None, total_cap=None,
-                 record=True):
+                 record=True, cpu_cap=CPU_CAP):
+        self.cpu_cap = cpu_cap
+        self._old_handler = None
         self.tick = 0
         self.n_act = 0
         self.names = {}           # id(coroutine) -> actor name (objects pinned by the world)
@@ -147,9 +152,36 @@ class Seam:
         cls.__init__ = __init__
         cls.run = run
         self.installed = True
+        self._arm_cpu_watchdog()
         return self
 
+    def _arm_cpu_watchdog(self):
+        """A synchronous spin inside one activation never returns to the kernel, so no step cap
+        can see it: bound the CPU time of the run instead (process CPU time, not wall time)."""
+        if not self.cpu_cap or threading.current_thread() is not threading.main_thread():
+            return
+
+        def on_alarm(signum, frame):
+            self.verdict = "livelock"
+            raise Livelock("the run burned %.0f CPU-seconds without finishing (last activation: "
+                           "%s at tick %d)" % (self.cpu_cap, self.current, self.tick))
+        try:
+            self._old_handler = signal.signal(signal.SIGVTALRM, on_alarm)
+            signal.setitimer(signal.ITIMER_VIRTUAL, self.cpu_cap, 2.0)
+        except (ValueError, OSError, AttributeError):
+            self._old_handler = None
+
+    def _disarm_cpu_watchdog(self):
+        if self._old_handler is not None:
+            try:
+                signal.setitimer(signal.ITIMER_VIRTUAL, 0)
+                signal.signal(signal.SIGVTALRM, self._old_handler)
+            except (ValueError, OSError):
+                pass
+            self._old_handler = None
+
     def uninstall(self):
+        self._disarm_cpu_watchdog()
         if self.installed:
             cls = self._cls
             cls._run_coroutine, cls.schedule, cls.__init__, cls.run = self._orig
